@@ -219,7 +219,10 @@ void Runner::op_start(Thread *t, int idx, const Op &op, OpRes &res) {
   // ---- C12: the caller is untouched on every return path
   {
     std::string sc = v < 0 ? "failure" : "success";
-    if (t->mask != mask0)
+    // (when the very call that restores the mask is made to fail there is nothing left the library could do)
+    bool restore_failed = false;
+    for (auto &f : k->faults) if (f.fired && f.op == idx && f.kind == K_sigmask && !f.child && f.nth >= 2) restore_failed = true;
+    if (t->mask != mask0 && !restore_failed)
       viol("C12", "signal-mask-changed", fmt("path=%s", sc.c_str()), fmt("thread signal mask was %#llx before start and is %#llx after (start returned %s)",
                                                                         (unsigned long long) mask0, (unsigned long long) t->mask, errn(v).c_str()), idx);
     if (memcmp(disp0, k->caller->disp, sizeof disp0))
@@ -287,6 +290,8 @@ void Runner::op_start(Thread *t, int idx, const Op &op, OpRes &res) {
   // the caller handed over one of its own descriptors 0-2 (as handle or FILE) that is not open: an unusable redirect target
   for (int i = 0; i < 3; i++) if (cx.src_low[i] >= 0 && cx.parent_ofd[cx.src_low[i]] < 0) natural.insert(EBADF);
   if (!s.fork || true) { if (k->caller->rlim_cur - 1 > 1024 * 1024) natural.insert(EMFILE); }
+  // the descriptor table really was full at some call of this start (small limits, other handles, squatters)
+  if (k->natural_emfile_ops.count(idx)) natural.insert(EMFILE);
   // deep working directory: the absolute program path can exceed PATH_MAX
   bool beyond_pathmax = false;
   if (!s.fork && s.wd != 0 && (s.prog == 1 || s.prog == 2 || s.prog == 9 || s.prog == 10)) {
@@ -463,7 +468,7 @@ void Runner::check_image(Thread *t, Proc *c, ExecImage *img) {
     std::vector<std::string> want_env;
     if (s.env_behavior == C.ENV_EXTEND) for (auto &e : plan.w.parent_env) want_env.push_back(e);
     if (!s.env_null) for (auto &e : s.env_extra) want_env.push_back(e);
-    if (!forked && img->envp != want_env) {
+    if (img->envp != want_env) {
       size_t i = 0;
       while (i < img->envp.size() && i < want_env.size() && img->envp[i] == want_env[i]) i++;
       viol("C03", "environment-differs", fmt("behavior=%s", s.env_behavior == C.ENV_EXTEND ? "extend" : "empty"),
@@ -536,8 +541,30 @@ void Runner::check_image(Thread *t, Proc *c, ExecImage *img) {
       else if (f.acc != want_acc) wrong("path opened in the wrong direction");
     }
   }
-  // ---- C11: nothing else is inherited
-  if (!forked) {
+  // ---- C11: nothing else is inherited.  The forked copy of fork mode never execs, so close-on-exec descriptors (its own
+  // redirect sources) stay; what it must not hold are the library's descriptors of *other* handles (their pipes would never
+  // report end-of-file while this child lives).
+  if (forked) {
+    // (a caller that names one of its own closed descriptors 0-2 as a redirect target gets whatever happens to have that
+    // number at the time - possibly another thread's pipe: its own mistake, not an inheritance)
+    // With descriptors 0-2 of a multi-threaded caller closed, another thread's freshly made pipe transiently *is* "the
+    // parent's stdin" for a PARENT redirect: which object the numbers 0-2 name is then ambiguous, so the rule is applied in
+    // worlds where the caller's standard descriptors are open.
+    bool closed_source = plan.w.low_fds != 7;
+    for (int i = 0; i < 3; i++) if (cx.src_low[i] >= 0 && cx.parent_ofd[cx.src_low[i]] < 0) closed_source = true;
+    for (auto &kv : img->fds) {
+      if (closed_source) break;
+      if (kv.first <= 2 || kv.second.owner != OWN_LIB) continue;
+      for (size_t fd = 0; fd < k->caller->fds.size(); fd++) {
+        FdEnt &e = k->caller->fds[fd];
+        if (e.ofd && e.ofd->id == kv.second.ofd_id && e.owner == OWN_LIB && e.made_handle >= 0 && e.made_handle != op.h) {
+          viol("C11", "descriptor-inherited", "owner=library/of=another-handle/mode=fork",
+               fmt("the forked child holds descriptor %d, which the library opened for handle %d", kv.first, e.made_handle), idx);
+          break;
+        }
+      }
+    }
+  } else {
     int extra = 0, exitfd = -1;
     for (auto &kv : img->fds) {
       if (kv.first <= 2) continue;
